@@ -221,6 +221,15 @@ def record_trace(rng):
                 init = torch.tensor([[rng.randint(0, 1) for _ in range(m["nv"])] for _ in range(nrows)], dtype=torch.double)
                 if one_d:
                     init = init[0].clone()
+                elif rng.random() < 0.35:
+                    # a non-contiguous view of the caller's wider array (column slice / transposed storage):
+                    # with overwrite the caller's memory must still be updated in place
+                    if rng.random() < 0.5:
+                        wide = torch.zeros(nrows, m["nv"] + 2, dtype=torch.double)
+                        wide[:, :m["nv"]] = init
+                        init = wide[:, :m["nv"]]
+                    else:
+                        init = init.t().contiguous().t()
             else:
                 init = cur                                              # chain continued across calls
             v0 = bitrows(init)
